@@ -13,6 +13,21 @@ CHECKS = {
          "Every generated (dataset, filter) pair is answered by the engine through four routes and compared, in both directions (nothing omitted, nothing extra, count exact), with a reference evaluator written from the property statement; atoms that can take the index-seek shortcut are re-run in an equivalent non-seekable spelling. Covers every comparison operator x operand type x coercion class of the generator's table, set functions over direct/dotted/fk sets, map elements, sub-queries, schema variants. Sampling with small universes: a defect needing a constant or nesting depth outside the generator is out of reach.",
          "Trusts the reference evaluator (kit/ref.go), the dataset writer (TypedBucket setters, as in boltz/query_test.go) and bbolt. Rows whose answer the property does not pin down (listed in DESIGN.md §9) evaluate to Unknown in the reference and are not asserted.",
          "DESIGN.md §3 C01"),
+ "C02": (True, "exploration",
+         "property-based testing (rapid): generated datasets x queries (predicate, 0-5 sort keys, skip, limit) against a reference sort/page; strategy equivalence across index scan, sorting scan, explicit cursor providers and cursor iteration; metamorphic constant-sort-key relation",
+         "The ordered id list and the total count returned through five routes are compared for equality with the list the property prescribes (sort keys each asc/desc, nulls first ascending, id tie-break, max(skip,0) dropped, limit absent/negative/none = unbounded). Boundary classes of skip and limit are generated explicitly and their frequencies reported. Sampling over datasets of <= 8 rows.",
+         "Trusts kit/refsort.go and the reference predicate evaluator; predicates with rows of unspecified answer are skipped; <= 5 sort keys.",
+         "DESIGN.md §3 C02"),
+ "C19": (True, "exploration",
+         "property-based differential testing (rapid): the same generated query is answered by objectz.ObjectStore and by a bolt store holding the same values",
+         "Literal differential the property states: ids, order and count (or error/no error) must agree for every generated collection x predicate over non-set symbols x sort x skip/limit, including = null / != null, negative skip, skip without limit, limit none, limit 0 and skip past the end. The object store is iterated in reverse insertion order.",
+         "Trusts the bolt store as the reference (its own exactness is C01/C02).",
+         "DESIGN.md §3 C19"),
+ "C20": (True, "exploration",
+         "property-based testing (rapid): typed queries over every AST node kind x public/non-public assignments; oracle = reference symbol set computed from the generated AST",
+         "For each generated query the exact set of referenced symbols is known by construction; ValidateSymbolsArePublic must accept iff all are public and otherwise name a referenced non-public symbol. The single non-public symbol is drawn uniformly over syntactic occurrences, so deep positions (inside set functions, sub-queries, in/between/contains/null tests, sort fields) are hit as often as shallow ones; the histogram of positions is reported.",
+         "Dotted linked symbols are excluded (publicity undefined for them); sub-queries range over a self-link so the store is unambiguous.",
+         "DESIGN.md §3 C20"),
  "C11": (True, "exploration",
          "property-based testing (rapid) with a round-trip oracle and an end-to-end query oracle; native go fuzzing of the codec in the thorough tier",
          "Generated strings over the property's alphabet (biased to adjacent backslash/letter/quote patterns) are quoted, parsed back and used in =, !=, in, not in, contains, not contains queries over rows holding the string, near-misses and null, through the in-memory symbol route and a bolt store; every answer is compared with the set computed directly from the intended string. Sampling, not proof: a defect needing a string outside the alphabet/length bound can be missed.",
